@@ -19,11 +19,13 @@ pub fn show_part(p: &[(u32, u32)]) -> String {
 pub fn gen_partition(t: &mut Tape, max_n: usize) -> Vec<(u32, u32)> {
     let n = t.choose(max_n + 1);
     let mut v: Vec<(u32, u32)> = Vec::new();
-    let mut next: u64 = match t.weighted(&[4, 2, 2, 2]) {
+    let seams: [u32; 10] = [0x7F, 0xD7FF, 0xD800, 0xDBFF, 0xDC00, 0xDFFF, 0xE000, 0xFFFD, 0xFFFF, 0x10000];
+    let mut next: u64 = match t.weighted(&[4, 2, 2, 2, 1]) {
         0 => 0,
         1 => 1,
         2 => t.u32_in(0, 200) as u64,
-        _ => t.u32_in(0, MAX) as u64,
+        3 => t.u32_in(0, MAX) as u64,
+        _ => seams[t.choose(seams.len())] as u64,
     };
     for _ in 0..n {
         if next > MAX as u64 {
@@ -31,12 +33,21 @@ pub fn gen_partition(t: &mut Tape, max_n: usize) -> Vec<(u32, u32)> {
         }
         let a = next as u32;
         let room = MAX - a;
-        let width = match t.weighted(&[4, 3, 3, 2, 1]) {
+        let width = match t.weighted(&[4, 3, 3, 2, 1, 1]) {
             0 => 0,
             1 => 1,
             2 => t.u32_in(0, 40),
             3 => t.u32_in(0, room),
-            _ => room, // up to MAX
+            4 => room, // up to MAX
+            _ => {
+                // end exactly on a seam of the code space
+                let e = seams[t.choose(seams.len())];
+                if e >= a {
+                    e - a
+                } else {
+                    0
+                }
+            }
         }
         .min(room);
         let b = a + width;
